@@ -851,6 +851,71 @@ func canon(b *types.Block) []byte {
 	return bz
 }
 
+// sameBlock compares two blocks field by field, without going through ToProto/Marshal (so that a field
+// lost by the encoder cannot hide a difference).
+func sameBlock(a, b *types.Block) bool {
+	ha, hb := a.Header(), b.Header()
+	if ha.Height != hb.Height || !ha.Time.Equal(hb.Time) || ha.NumTxs != hb.NumTxs || ha.GasLimit != hb.GasLimit ||
+		!ha.LastBlockID.Equal(hb.LastBlockID) || ha.ProposerAddress != hb.ProposerAddress || ha.LastCommitHash != hb.LastCommitHash ||
+		ha.TxHash != hb.TxHash || ha.ValidatorsHash != hb.ValidatorsHash || ha.NextValidatorsHash != hb.NextValidatorsHash ||
+		ha.ConsensusHash != hb.ConsensusHash || ha.AppHash != hb.AppHash || ha.EvidenceHash != hb.EvidenceHash {
+		return false
+	}
+	if len(a.Transactions()) != len(b.Transactions()) {
+		return false
+	}
+	for i := range a.Transactions() {
+		if a.Transactions()[i].Hash() != b.Transactions()[i].Hash() {
+			return false
+		}
+	}
+	ca, cb := a.LastCommit(), b.LastCommit()
+	if (ca == nil) != (cb == nil) {
+		return false
+	}
+	if ca != nil {
+		if ca.Height != cb.Height || ca.Round != cb.Round || !ca.BlockID.Equal(cb.BlockID) || len(ca.Signatures) != len(cb.Signatures) {
+			return false
+		}
+		for i := range ca.Signatures {
+			x, y := ca.Signatures[i], cb.Signatures[i]
+			if x.BlockIDFlag != y.BlockIDFlag || x.ValidatorAddress != y.ValidatorAddress || !x.Timestamp.Equal(y.Timestamp) || !bytes.Equal(x.Signature, y.Signature) {
+				return false
+			}
+		}
+	}
+	var ea, eb types.EvidenceList
+	if a.Evidence() != nil {
+		ea = a.Evidence().Evidence
+	}
+	if b.Evidence() != nil {
+		eb = b.Evidence().Evidence
+	}
+	if len(ea) != len(eb) {
+		return false
+	}
+	for i := range ea {
+		da, ok1 := ea[i].(*types.DuplicateVoteEvidence)
+		db, ok2 := eb[i].(*types.DuplicateVoteEvidence)
+		if !ok1 || !ok2 {
+			return false
+		}
+		if da.TotalVotingPower != db.TotalVotingPower || da.ValidatorPower != db.ValidatorPower || !da.Timestamp.Equal(db.Timestamp) ||
+			!sameVote(da.VoteA, db.VoteA) || !sameVote(da.VoteB, db.VoteB) {
+			return false
+		}
+	}
+	return true
+}
+
+func sameVote(a, b *types.Vote) bool {
+	if a == nil || b == nil {
+		return a == b
+	}
+	return a.Type == b.Type && a.Height == b.Height && a.Round == b.Round && a.BlockID.Equal(b.BlockID) && a.Timestamp.Equal(b.Timestamp) &&
+		a.ValidatorAddress == b.ValidatorAddress && a.ValidatorIndex == b.ValidatorIndex && bytes.Equal(a.Signature, b.Signature)
+}
+
 // opBlock prints the model input for a block and observes Hash and ValidateBasic.
 func opBlock(o *out.Out, b *types.Block) (hash common.Hash, vb error, pan bool) {
 	h := b.Header()
@@ -1344,7 +1409,7 @@ func runBlockCase(o *out.Out, r *gen.Rand, c int) {
 					o.Fail(step, "roundtrip-validity-changed", fmt.Sprintf("ValidateBasic=%v BlockFromProto err=%v", baseVB, err))
 				}
 				if b2 != nil {
-					if b2.Hash() != baseHash || !bytes.Equal(canon(b2), baseCanon) {
+					if b2.Hash() != baseHash || !bytes.Equal(canon(b2), baseCanon) || !sameBlock(b2, blk) {
 						o.Fail(step, "roundtrip-block-changed", "BlockFromProto(ToProto(b)) differs from b")
 					}
 					if len(b2.Transactions()) != len(blk.Transactions()) {
@@ -1478,7 +1543,7 @@ func runBlockCase(o *out.Out, r *gen.Rand, c int) {
 				rb = rawdb.ReadBlock(db, blk.Height())
 			}) {
 				o.Fail(step, "rawdb-panic", "")
-			} else if rb == nil || rb.Hash() != baseHash || !bytes.Equal(canon(rb), baseCanon) {
+			} else if rb == nil || rb.Hash() != baseHash || !bytes.Equal(canon(rb), baseCanon) || !sameBlock(rb, blk) {
 				o.Fail(step, "rawdb-readback-changed", "ReadBlock(WriteBlock(b)) differs from b")
 			}
 			o.Count("roundtrip.rawdb")
@@ -1514,7 +1579,7 @@ func runBlockCase(o *out.Out, r *gen.Rand, c int) {
 			o.Count("mutation." + m.name + ".unencodable")
 			continue
 		}
-		if bytes.Equal(mc, baseCanon) {
+		if bytes.Equal(mc, baseCanon) && sameBlock(mb, blk) {
 			o.Count("mutation." + m.name + ".noop")
 			continue
 		}
@@ -1597,14 +1662,23 @@ func main() {
 			continue
 		}
 		r := root.Fork(uint64(c))
-		switch c % 6 {
-		case 0, 1, 2:
-			runPartSetCase(o, r, c)
-		case 3:
-			runMerkleCase(o, r, c)
-		default:
-			runBlockCase(o, r, c)
-		}
+		func() {
+			// a panic that escapes the per-call recovers (the implementation breaking an assumption of
+			// the harness itself, e.g. a part list shorter than Total) is a failure of the case
+			defer func() {
+				if e := recover(); e != nil {
+					o.Fail(0, "case-panic", strings.ReplaceAll(fmt.Sprint(e), "\n", " "))
+				}
+			}()
+			switch c % 6 {
+			case 0, 1, 2:
+				runPartSetCase(o, r, c)
+			case 3:
+				runMerkleCase(o, r, c)
+			default:
+				runBlockCase(o, r, c)
+			}
+		}()
 	}
 	o.Close()
 }
